@@ -101,6 +101,7 @@ pub struct Rt {
     pub preempted_in_poll: bool,
     pub in_callback: bool,
     pub blocked_workers: u32,
+    pub live_closure_threads: usize,
 }
 
 thread_local! {
@@ -210,6 +211,7 @@ impl Rt {
             preempted_in_poll: false,
             in_callback: false,
             blocked_workers: 0,
+            live_closure_threads: 0,
         }
     }
 
